@@ -16,6 +16,7 @@ import copy
 import numpy as np
 
 from pv import core
+from pv.gen import c09_axes as AX
 from pv.ref import c09_oracle as O
 
 XY_NAMES = [('x', 'y'), ('x_init', 'y_init'), ('x_0', 'y_0'), ('xcentroid', 'ycentroid'), ('x_fit', 'y_fit'),
@@ -59,7 +60,7 @@ def _scene(rng, fwhm, shape, faint_companions=False):
     return dict(data=data, pos=np.array(pos), flux=flux, bkg=bkg)
 
 
-def gen_factory(rng, variant):
+def gen_factory(rng, variant, mag=1.0):
     """Returns (make, cfgdesc).  make() builds a brand-new photometry object
     (every component newly constructed) from the same recorded choices."""
     fwhm = float(np.round(rng.uniform(2.0, 3.5), 2))
@@ -109,7 +110,7 @@ def gen_factory(rng, variant):
             else:
                 model = ImagePSF(psfs[0], oversampling=over)
         kw = dict(grouper=SourceGrouper(min_sep) if use_grouper else None,
-                  finder=DAOStarFinder(thr, fwhm) if use_finder else None,
+                  finder=DAOStarFinder(thr * mag, fwhm) if use_finder else None,
                   localbkg_estimator=LocalBackground(5, 9, MedianBackground()) if use_lbkg else None,
                   aperture_radius=ap_r, xy_bounds=xyb)
         if fk == 2:
@@ -129,7 +130,8 @@ def gen_factory(rng, variant):
     return make, desc, fwhm, use_finder, use_grouper
 
 
-def gen_call(rng, scenes, use_finder, allow_units):
+def gen_call(case, scenes, use_finder, allow_units, mag=1.0):
+    rng = case.rng
     """One call description (plain data, JSON-able summary)."""
     import astropy.units as u
     from astropy.table import QTable, Table
@@ -148,7 +150,26 @@ def gen_call(rng, scenes, use_finder, allow_units):
         keep = np.ones(n, bool)
         if n > 2 and rng.random() < 0.3:
             keep[int(rng.integers(0, n))] = False
+        degenerate = None
+        rdeg = rng.random()
+        if rdeg < 0.05:
+            keep[:] = False
+            keep[int(rng.integers(0, n))] = True         # a single source
+            degenerate = 'single_source'
+        elif rdeg < 0.09:
+            degenerate = 'source_off_image'              # documented ValueError
+        elif rdeg < 0.13:
+            degenerate = 'source_fully_masked'           # documented ValueError
+        elif rdeg < 0.17:
+            degenerate = 'integer_positions'
+        if degenerate:
+            case.note('axis:degenerate_psf:' + degenerate)
+            call['degenerate'] = degenerate
         pos = sc['pos'][keep] + rng.normal(0, 0.3, (int(keep.sum()), 2))
+        if degenerate == 'source_off_image':
+            pos[0] = (-60.0, -40.0)
+        if degenerate == 'integer_positions':
+            pos = np.round(pos).astype(int)
         init = (QTable if rng.random() < 0.7 else Table)()
         if rng.random() < 0.2:
             init['id'] = np.arange(len(pos)) + 1
@@ -159,10 +180,14 @@ def gen_call(rng, scenes, use_finder, allow_units):
         if rng.random() < 0.4:
             fn = FLUX_NAMES[int(rng.integers(0, len(FLUX_NAMES)))]
             f = sc['flux'][keep] * rng.uniform(0.7, 1.3, len(pos))
-            init[fn] = f * unit if unit is not None else f
+            if unit is not None and rng.random() < 0.5:
+                init[fn] = (f * 1000.0) * u.mJy           # compatible non-base unit of the column
+                case.note('axis:psf_flux_column_unit:mJy_vs_Jy')
+            else:
+                init[fn] = f * unit if unit is not None else f
             cols.append(fn)
         if rng.random() < 0.3:
-            lb = np.full(len(pos), sc['bkg']) + rng.normal(0, 0.2, len(pos))
+            lb = np.full(len(pos), sc['bkg']) + rng.normal(0, 0.2, len(pos)) * mag
             init['local_bkg'] = lb * unit if unit is not None else lb
             cols.append('local_bkg')
         if rng.random() < 0.3:
@@ -174,9 +199,13 @@ def gen_call(rng, scenes, use_finder, allow_units):
     data = sc['data']
     error = mask = None
     if rng.random() < 0.3:
-        error = np.sqrt(np.abs(data) + 1.0)
+        error = np.sqrt(np.abs(data / mag) + 1.0) * mag
     if rng.random() < 0.3:
         mask = rng.random(data.shape) < 0.03
+    if use_init and call.get('degenerate') == 'source_fully_masked':
+        mask = np.zeros(data.shape, bool) if mask is None else mask
+        px, py = sc['pos'][0]
+        mask[max(0, int(py) - 6):int(py) + 7, max(0, int(px) - 6):int(px) + 7] = True
     if rng.random() < 0.08:
         data = data.copy()
         data[rng.random(data.shape) < 0.01] = np.nan
@@ -189,9 +218,10 @@ def gen_call(rng, scenes, use_finder, allow_units):
 
 
 def _call(obj, args):
-    d = args['data'].copy()
-    e = None if args['error'] is None else args['error'].copy()
-    m = None if args['mask'] is None else args['mask'].copy()
+    lay = args.get('lay') or (lambda a: None if a is None else a.copy())
+    d = lay(args['data'])
+    e = lay(args['error'])
+    m = lay(args['mask'])
     ip = None if args['init'] is None else args['init'].copy()
     if args.get('nddata'):
         from astropy.nddata import NDData, StdDevUncertainty
@@ -285,12 +315,21 @@ def _config(obj, iterative):
 def run(case, variant):
     rng = case.rng
     iterative = variant == 'iterative'
-    make, desc, fwhm, use_finder, use_grouper = gen_factory(rng, variant)
+    mag = AX.scale(case, 'magnitude_psf', p_plain=0.6)
+    lay = AX.layout(case, 'layout_psf')
+    make, desc, fwhm, use_finder, use_grouper = gen_factory(rng, variant, mag)
+    desc['magnitude'] = mag
     nscene = int(rng.integers(2, 4))
-    scenes = [_scene(rng, fwhm, (int(rng.integers(32, 49)), int(rng.integers(32, 49))), faint_companions=iterative)
+    scenes = [_scene(rng, fwhm, AX.image_shape(case, 32, 49, 'shape_psf'), faint_companions=iterative)
               for _ in range(nscene)]
+    for sc_ in scenes:
+        sc_['data'] = sc_['data'] * mag
+        sc_['flux'] = sc_['flux'] * mag
+        sc_['bkg'] = sc_['bkg'] * mag
     ncalls = int(rng.integers(2, 6)) if not iterative else int(rng.integers(2, 4))
-    calls = [gen_call(rng, scenes, use_finder, allow_units=not use_finder) for _ in range(ncalls)]
+    calls = [gen_call(case, scenes, use_finder, allow_units=not use_finder, mag=mag) for _ in range(ncalls)]
+    for _, a_ in calls:
+        a_['lay'] = lay
     calllog = []
     case.params = dict(desc, calls=calllog, nstars=[len(s['pos']) for s in scenes])
     case.digest = core.arr_digest(*[s['data'] for s in scenes]) + core.digest([desc, [c for c, _ in calls]])
